@@ -100,7 +100,7 @@ func (l dirItemList) size(joliet bool) sizeBytes {
 		}
 
 		for _, entry := range entries {
-			ret += entry.size()
+			ret = ret.withRecord(entry.size()) // ret is a whole number of sectors at the start of a directory
 		}
 
 		ret = ret.sectors().bytes() // directory entries of one directory aligned to sector
